@@ -35,8 +35,14 @@ rec = {"pid": os.getpid(), "ppid": os.getppid(),
        "argv": open("/proc/self/cmdline", "rb").read().decode("utf8", "surrogateescape").split("\0")[:-1],
        "environ": dict(kv.split("=", 1) for kv in open("/proc/self/environ", "rb").read().decode("utf8", "surrogateescape").split("\0") if "=" in kv),
        "cwd": os.getcwd(), "fds": fds, "t": time.time()}
-if "--stubborn" in sys.argv:
-    signal.signal(signal.SIGTERM, signal.SIG_IGN)
+siglog = os.path.join(out, "%d.sig" % os.getpid())
+def on_sig(signum, frame):
+    with open(siglog, "a") as f:
+        f.write("%d %.6f\n" % (signum, time.time()))
+    if "--stubborn" not in sys.argv:
+        os._exit(0)
+for s_ in (signal.SIGTERM, signal.SIGINT, signal.SIGQUIT, signal.SIGUSR1, signal.SIGHUP):
+    signal.signal(s_, on_sig)
 tmp = os.path.join(out, ".%d.tmp" % os.getpid())
 with open(tmp, "w") as f:
     json.dump(rec, f)
@@ -288,12 +294,62 @@ def run_scenario(sc):
                     if not ok:
                         incon.append('no respawn within 10 s')
             elif act in ('restart', 'reload'):
+                old = [p for p in before if _alive(p)]
+                t_req = time.time()
                 try:
                     # by name: a restart without a name restarts the whole
                     # daemon (new sockets by design)
-                    cli.send_message(act, name='w*', waiting=True)
+                    rep = None
+                    for _try in range(20):
+                        rep = cli.send_message(act, name='w*', waiting=True)
+                        if rep.get('status') == 'ok':
+                            break
+                        # refused: the periodic check holds the slot
+                        time.sleep(0.1)
+                        t_req = time.time()
+                    if rep is None or rep.get('status') != 'ok':
+                        incon.append('%s refused: %r' % (act, rep))
+                        old = []
                 except Exception as e:
                     incon.append('%s failed: %r' % (act, e))
+                    old = []
+                t_rep = time.time()
+                ds0 = _dumps(dump)
+                for p in old:
+                    rec = ds0.get(p)
+                    if rec is None:
+                        continue
+                    wname = rec["argv"][rec["argv"].index('--name') + 1]
+                    wcfg = [w for w in sc["watchers"] if w["name"] == wname][0]
+                    gt = wcfg.get("graceful_timeout", 0.4)
+                    sigs = []
+                    try:
+                        with open(os.path.join(dump, '%d.sig' % p)) as f:
+                            sigs = [ln.split() for ln in f.read().splitlines()]
+                    except OSError:
+                        pass
+                    if _alive(p):
+                        viols.append(Violation(
+                            'C02:live:survivor-after-%s' % act,
+                            '%s (waiting) was answered, old worker %d of %s '
+                            'is still alive' % (act, p, wname)))
+                        continue
+                    if not sigs:
+                        incon.append('no signal log for %d' % p)
+                        continue
+                    if int(sigs[0][0]) != int(signal.SIGTERM):
+                        viols.append(Violation(
+                            'C03:live:first-signal',
+                            'old worker %d first received signal %s, the '
+                            'stop signal is SIGTERM' % (p, sigs[0][0])))
+                    t1 = float(sigs[0][1])
+                    if wcfg.get("stubborn") and t_rep - t1 < gt - 0.1:
+                        viols.append(Violation(
+                            'C03:live:sigkill-too-early',
+                            'stubborn worker %d of %s got SIGTERM at %.3f and '
+                            'was gone by %.3f: %.3f s, graceful_timeout %s'
+                            % (p, wname, t1, t_rep, t_rep - t1, gt)))
+                    info["episodes"] = info.get("episodes", 0) + 1
                 ok = _wait(lambda: len(set(_dumps(dump)) - before) >= total,
                            15.0)
                 if not ok:
@@ -388,7 +444,7 @@ def run_scenario(sc):
     return viols, incon, info
 
 
-def strategy():
+def strategy(always_restart=False):
     from hypothesis import strategies as st
     arg = st.text(alphabet="ab Z'\"9-_=/.é$", min_size=1, max_size=6)
 
@@ -418,8 +474,9 @@ def strategy():
             "sockets": socks, "watchers": ws,
             "pidfile": draw(st.booleans()),
             "global_warmup": draw(st.sampled_from([0, 0, 1])),
-            "actions": draw(st.lists(st.sampled_from(
-                ['kill-one', 'restart', 'reload']), max_size=2)),
+            "actions": (['restart'] if always_restart else []) + draw(
+                st.lists(st.sampled_from(['kill-one', 'restart', 'reload']),
+                         max_size=2)),
             "shutdown": draw(st.sampled_from(['quit', 'TERM', 'INT',
                                               'QUIT'])),
             "shutdown_during": draw(st.sampled_from(
@@ -439,4 +496,6 @@ def execute_live(case, prefixes):
         classes.append('live-several-generations')
     if case.get("shutdown_during"):
         classes.append('live-shutdown-during-operation')
+    if info.get("episodes"):
+        classes.append('live-termination-episode')
     return mine, True, classes
